@@ -265,6 +265,11 @@ func FuzzC04(f *testing.F) {
 			f.Add(b)
 		}
 	}
+	for i := 0; i < 200; i++ {
+		if c := rapid.Custom(genCase).Example(i); len(c.Blob) <= 1<<16 {
+			f.Add([]byte(c.Blob))
+		}
+	}
 	f.Fuzz(hx.FuzzBody("C04", "FuzzC04", fuzzOracle))
 }
 
